@@ -207,6 +207,46 @@ pub fn cases(tier: &str, accepted_token_texts: &[String]) -> Vec<Case> {
         // the same next to a sane module that imports it
         out.push(Case { family: "oddity", kind: Kind::Build(Input { modules: vec![("m".into(), o.to_string()), ("n::user".into(), "use m;\npub type User {\n    pub p: *const T,\n}\n".into())] }) });
     }
+    // deep nesting and sheer numbers: the work must stay proportional to the text
+    for depth in [8usize, 16, 24, 32, 64, 128] {
+        for (open, close) in [("[", "; 1]"), ("[", "; 0]"), ("[", "; 2]"), ("*const ", ""), ("*mut ", ""), ("*const [", "; 1]"), ("[*mut ", "; 3]")] {
+            let ty = format!("{}u8{}", open.repeat(depth), close.repeat(depth));
+            out.push(Case { family: "deep_nesting", kind: Kind::Build(Input::single(format!("pub type T {{\n    pub f: {ty},\n}}\n"))) });
+            out.push(Case { family: "deep_nesting", kind: Kind::Build(Input::single(format!("pub type T {{\n    vftable {{\n        pub fn v(&self, a: {ty}) -> {ty};\n    }},\n    pub x: u32,\n}}\nimpl T {{\n    #[address(0x10)]\n    pub fn f(&self, a: {ty}) -> {ty};\n}}\n#[address(0x20)]\npub extern g: {ty};\n"))) });
+            out.push(Case { family: "deep_nesting", kind: Kind::Build(Input::single(format!("#[copyable, defaultable]\npub type Inner {{\n    pub f: {ty},\n}}\n#[copyable, defaultable]\npub type T {{\n    pub a: [Inner; 2],\n    pub b: Inner,\n}}\n"))) });
+        }
+    }
+    for n in [100usize, 1000, 3000] {
+        let fields: String = (0..n).map(|i| format!("    pub f{i}: u32,\n")).collect();
+        out.push(Case { family: "large_input", kind: Kind::Build(Input::single(format!("pub type T {{\n{fields}}}\n"))) });
+        let gaps: String = (0..n).map(|i| format!("    #[address({})]\n    pub f{i}: u32,\n", 8 * i)).collect();
+        out.push(Case { family: "large_input", kind: Kind::Build(Input::single(format!("pub type T {{\n{gaps}}}\n"))) });
+        let variants: String = (0..n).map(|i| format!("    V{i},\n")).collect();
+        out.push(Case { family: "large_input", kind: Kind::Build(Input::single(format!("pub enum E: u32 {{\n{variants}}}\n"))) });
+        let funcs: String = (0..n.min(1000)).map(|i| format!("        pub fn v{i}(&self, a: u32) -> u32;\n")).collect();
+        out.push(Case { family: "large_input", kind: Kind::Build(Input::single(format!("pub type T {{\n    vftable {{\n{funcs}    }},\n    pub x: u32,\n}}\npub type D {{\n    #[base]\n    pub t: T,\n}}\n"))) });
+        // a by-value chain declared backwards, and the same as an inheritance chain
+        let m = n.min(300);
+        let chain: String = (0..m).rev().map(|i| if i + 1 == m { format!("pub type C{i} {{\n    pub x: u32,\n}}\n") } else { format!("pub type C{i} {{\n    pub next: C{},\n    pub x: u32,\n}}\n", i + 1) }).collect();
+        out.push(Case { family: "large_input", kind: Kind::Build(Input::single(chain)) });
+        let m = n.min(60);
+        let bases: String = (0..m).rev().map(|i| if i + 1 == m { format!("pub type H{i} {{\n    pub x: u32,\n}}\nimpl H{i} {{\n    #[address(0x10)]\n    pub fn f(&self);\n}}\n") } else { format!("pub type H{i} {{\n    #[base]\n    pub base: H{},\n    pub x: u32,\n}}\n", i + 1) }).collect();
+        out.push(Case { family: "large_input", kind: Kind::Build(Input::single(bases)) });
+        let long = "x".repeat(n);
+        out.push(Case { family: "large_input", kind: Kind::Build(Input::single(format!("/// {long}\npub type T{long} {{\n    pub f{long}: u32,\n}}\n"))) });
+    }
+    // rust backend text that is not Rust, with the offending token spanning lines / ending left of its start
+    for bad in [
+        "fn ok() {}\n                                        \"a string that starts far to the right\nand ends here\" junk",
+        "                    r#\"raw\nstring\"# ) ) )",
+        "/* never closed\n\n",
+        "fn f() {\n    (\n",
+        "                                let x = 'c\n';",
+        "\u{feff}struct 名 { }\n        \"ü\nü\" +",
+    ] {
+        out.push(Case { family: "oddity", kind: Kind::Build(Input::single(format!("backend rust prologue r###\"\n{bad}\n\"###;\npub type T {{\n    pub x: u32,\n}}\n"))) });
+        out.push(Case { family: "oddity", kind: Kind::Build(Input::single(format!("//! doc\nbackend rust {{\n    prologue r###\"\nuse core::mem;\n\"###;\n    epilogue r###\"\n{bad}\n\"###;\n}}\npub type T {{\n    pub x: u32,\n}}\n"))) });
+    }
     for g in graphs::graph_inputs(if tier == "thorough" { "quick" } else { "sched" }, tier != "thorough") {
         out.push(Case { family: "graph", kind: Kind::Build(g.input) });
     }
@@ -396,7 +436,7 @@ fn run_worker(tier: &str, shard: usize, nshards: usize, skip: i64, tokfile: &str
 
 pub fn run(tier: &str, only: Option<&Value>) -> i32 {
     let mut rep = Report::new("C12", tier);
-    rep.rule = "E1 robustness menus — every numeric position x the boundary integer alphabet (singly and all pairs within a template; table-sized positions capped at 65536), every identifier position x an identifier alphabet incl. raw identifiers, generics, non-ASCII and keywords, every known attribute name x 10 shapes x 12 positions, a list of structural oddities (bases of every kind, odd enum bases, duplicate names, reserved generated names, broken backend text), the dependency graphs of C10, public-API call sequences (<= 3 add_module calls over 3 modules x 4 path kinds, then build) — and E3: every token sequence the parser accepts (lengths as in C18) continued into build; all at pointer widths 4 and 8 in worker subprocesses under a 4 GiB address-space limit and a 10 s no-progress watchdog; plus every rejected token text of length <= 3 (and a fifth of them again behind multi-byte characters on the same line, and eight hand-written errors after non-ASCII identifiers / strings) through add_file, whose error must name path:line:column inside the file. distinct = distinct case texts".into();
+    rep.rule = "E1 robustness menus — every numeric position x the boundary integer alphabet (singly and all pairs within a template; table-sized positions capped at 65536), every identifier position x an identifier alphabet incl. raw identifiers, generics, non-ASCII and keywords, every known attribute name x 10 shapes x 12 positions, a list of structural oddities (bases of every kind, odd enum bases, duplicate names, reserved generated names, broken backend text incl. offending tokens that span lines), types nested 8..128 levels deep (arrays of length 0 / 1 / 2, pointers, mixtures) in every type position, inputs with 100 / 1000 / 3000 fields, gaps, variants, virtual functions, chains of 300 types and 60 inheritance levels, very long names, the dependency graphs of C10, public-API call sequences (<= 3 add_module calls over 3 modules x 4 path kinds, then build) — and E3: every token sequence the parser accepts (lengths as in C18) continued into build; all at pointer widths 4 and 8 in worker subprocesses under a 4 GiB address-space limit and a 10 s no-progress watchdog; plus every rejected token text of length <= 3 (and a fifth of them again behind multi-byte characters on the same line, and eight hand-written errors after non-ASCII identifiers / strings) through add_file, whose error must name path:line:column inside the file. distinct = distinct case texts".into();
     rep.assumptions = vec![
         "a worker that dies or stalls is attributed to the case recorded in its status file and re-run alone before it is reported".into(),
         "asymptotic resource use is not measured: fixed generous caps on inputs whose requested tables are small".into(),
